@@ -452,7 +452,13 @@ def penalize(A: spmatrix,
 
     d = Aout.diagonal()
     if epsilon is None:
-        epsilon = 1e-10 / np.linalg.norm(d[D], np.inf).astype(float)
+        scale = np.linalg.norm(d[D], np.inf) if len(D) > 0 else 0.
+        if scale == 0.:
+            # constrained rows without (diagonal) entries
+            scale = abs(Aout).max() if Aout.nnz > 0 else 0.
+        if scale == 0.:
+            scale = 1.
+        epsilon = 1e-10 / float(scale)
     d[D] = 1. / epsilon
     Aout.setdiag(d)
 
